@@ -86,8 +86,8 @@ def _discharge(ob):
             out = Outcome(r.verdict, 'sympy', r.seconds, r.detail, _jsonable(r.model))
         elif be == 'icp':
             from . import icp
-            r = icp.prove_box(ob.hyps, ob.goal, ob.box, max_boxes=ob.smt_opts.get('max_boxes', 200000)
-                              if False else getattr(ob, 'max_boxes', 200000))
+            r = icp.prove_box(ob.hyps, ob.goal, ob.box, max_boxes=getattr(ob, 'max_boxes', 200000),
+                              extended=getattr(ob, 'extended', False))
             out = Outcome(r.verdict, 'icp', r.seconds, '%d boxes %s' % (r.boxes, r.detail), _jsonable(r.model))
         elif be == 'syntactic':
             out = Outcome('proved' if ob.goal is ir.TRUE else 'unknown', 'syntactic', 0.0,
@@ -122,9 +122,10 @@ def _jsonable(m):
         return str(m)
 
 
-def parse_region(text, sorts=None):
+def parse_region(text, sorts=None, names=None):
     """'theta >= 3.5 and v <= 0.01' -> T (names are variables; used by known_findings regions)"""
     sorts = sorts or {}
+    names = names or {}
     node = ast.parse(text, mode='eval').body
 
     def ev(n):
@@ -150,7 +151,7 @@ def parse_region(text, sorts=None):
         if isinstance(n, ast.Constant):
             return ir.const(n.value)
         if isinstance(n, ast.Name):
-            return ir.var(n.id, sorts.get(n.id, 'R'))
+            return ir.var(names.get(n.id, n.id), sorts.get(n.id, 'R'))
         raise ValueError('region syntax: ' + ast.dump(n))
     return ev(node)
 
@@ -206,6 +207,7 @@ class Check(object):
     def finish(self, checker_cmd, level='proof', trusted=None, extra_cov=None):
         self.discharge_all()
         canaries_ok = True
+        proved_canaries = []
         n_real = 0
         n_dis = 0
         by_backend = {}
@@ -219,7 +221,7 @@ class Check(object):
             if ob.canary:
                 if r['verdict'] == 'proved':
                     canaries_ok = False
-                    self.engine_error('canary %s was PROVED: engine unsound' % ob.name)
+                    proved_canaries.append(ob.name)
                 continue
             n_real += 1
             if r['verdict'] == 'proved':
@@ -236,7 +238,13 @@ class Check(object):
                                 'hyps': [ir.show(h)[:160] for h in ob.hyps[:8]],
                                 'verdict': r['verdict'], 'backend': r['backend'], 'seconds': r['seconds']})
         n_known = len(self.known)
-        if n_real == 0 and not self.bounded:
+        if proved_canaries and not self.violations:
+            # a must-fail obligation was proved although every real obligation holds: the engine proves too much
+            for nm in proved_canaries:
+                self.engine_error('canary %s was PROVED: engine unsound' % nm)
+        elif proved_canaries:
+            self.notes.append('canaries proved under a violated tree (not an engine verdict): %s' % proved_canaries)
+        if n_real == 0 and not self.bounded and not self.undecided:
             self.engine_error('zero obligations generated')
         cov = {
             'obligations': n_real, 'discharged': n_dis + n_known, 'checker_cmd': checker_cmd,
@@ -301,13 +309,14 @@ class Check(object):
                 continue
             if f.get('region'):
                 try:
-                    region = parse_region(f['region'], f.get('sorts'))
+                    region = parse_region(f['region'], f.get('sorts'), f.get('vars'))
                     r2 = smt.prove(list(ob.hyps) + [ir.not_(region)], ob.goal, timeout_ms=ob.timeout_ms,
                                    hints=ob.hints, free_ufs_ok=ob.free_ufs_ok, extra_axioms=ob.extra_axioms)
                     if r2.verdict != 'proved' and 'icp' in ob.backends and ob.box:
                         from . import icp
                         r3 = icp.prove_box(list(ob.hyps) + [ir.not_(region)], ob.goal, ob.box,
-                                           max_boxes=getattr(ob, 'max_boxes', 200000))
+                                           max_boxes=getattr(ob, 'max_boxes', 200000),
+                                           extended=getattr(ob, 'extended', False))
                         verdict = r3.verdict
                     else:
                         verdict = r2.verdict
